@@ -21,13 +21,14 @@ use std::collections::BTreeMap;
 use std::panic::{catch_unwind, AssertUnwindSafe};
 use xml_dom::{Document, DocumentMut, Element, Node, NodeList, NodeMut};
 
-pub const BASE_DOC: &str = "<!DOCTYPE r><!--k--><r x='v'><a><b/>t</a><c/></r>";
-/// D document, T doctype, K prolog comment, R root, A, B (in A), X text (in A), C, Y attribute x of R, V its text,
+pub const BASE_DOC: &str = "<!DOCTYPE r><!--k--><r x='v&#65;'><a><b/>t</a><c/></r><!--j-->";
+/// D document, T doctype, K prolog comment, R root, J comment AFTER the root, A, B (in A), X text (in A), C, Y attribute x of R, V its text,
+/// Q the character reference that follows V in Y,
 /// N created element, S created text, W created comment, F created (empty) fragment, Z element of ANOTHER document,
 /// L an element created by a LOOK-ALIKE document (a second parse of the same text: equal content, equal ids)
-pub const POOL: [&str; 16] = ["D", "T", "K", "R", "A", "B", "X", "C", "Y", "V", "N", "S", "W", "F", "Z", "L"];
+pub const POOL: [&str; 18] = ["D", "T", "K", "R", "A", "B", "X", "C", "Y", "V", "N", "S", "W", "F", "Z", "L", "J", "Q"];
 pub const PARENTS: [&str; 8] = ["D", "R", "A", "C", "N", "Y", "X", "K"];
-pub const REFS: [&str; 9] = ["T", "K", "R", "A", "B", "X", "C", "N", "V"];
+pub const REFS: [&str; 11] = ["T", "K", "R", "A", "B", "X", "C", "N", "V", "J", "Q"];
 
 #[derive(Clone, Copy, PartialEq, Debug)]
 enum Kind {
@@ -36,6 +37,7 @@ enum Kind {
     Comment,
     Element,
     Text,
+    CharRef,
     Attr,
     Fragment,
 }
@@ -50,7 +52,8 @@ fn kind(n: &str) -> Kind {
     match n {
         "D" => Kind::Doc,
         "T" => Kind::Doctype,
-        "K" | "W" => Kind::Comment,
+        "K" | "W" | "J" => Kind::Comment,
+        "Q" => Kind::CharRef,
         "X" | "S" | "V" => Kind::Text,
         "Y" => Kind::Attr,
         "F" => Kind::Fragment,
@@ -61,8 +64,8 @@ fn kind(n: &str) -> Kind {
 fn allowed(parent: Kind, child: Kind) -> bool {
     match parent {
         Kind::Doc => matches!(child, Kind::Element | Kind::Comment | Kind::Doctype),
-        Kind::Element => matches!(child, Kind::Element | Kind::Text | Kind::Comment),
-        Kind::Attr => matches!(child, Kind::Text),
+        Kind::Element => matches!(child, Kind::Element | Kind::Text | Kind::Comment | Kind::CharRef),
+        Kind::Attr => matches!(child, Kind::Text | Kind::CharRef),
         _ => false,
     }
 }
@@ -79,7 +82,7 @@ impl Model {
             kids.insert(p, vec![]);
             parent.insert(p, None);
         }
-        for (p, cs) in [("D", vec!["T", "K", "R"]), ("R", vec!["A", "C"]), ("A", vec!["B", "X"]), ("Y", vec!["V"])] {
+        for (p, cs) in [("D", vec!["T", "K", "R", "J"]), ("R", vec!["A", "C"]), ("A", vec!["B", "X"]), ("Y", vec!["V", "Q"])] {
             for c in &cs {
                 parent.insert(*c, Some(p));
             }
@@ -252,6 +255,8 @@ impl Real {
         nodes.insert("X", a.child_nodes().item(1).unwrap());
         nodes.insert("C", r.child_nodes().item(1).unwrap());
         nodes.insert("V", y.child_nodes().item(0).unwrap());
+        nodes.insert("Q", y.child_nodes().item(1).unwrap());
+        nodes.insert("J", kids[3].clone());
         nodes.insert("Y", xml_dom::AsNode::as_node(&y));
         nodes.insert("N", xml_dom::AsNode::as_node(&doc.create_element("n").unwrap()));
         nodes.insert("S", xml_dom::AsNode::as_node(&doc.create_text_node("s")));
@@ -1067,6 +1072,74 @@ pub fn xpath_corpus_repeat(doc_index: usize, expr: &str, expected: &str) -> Outc
     };
     let _ = first;
     Outcome { observed, expected: "same value every time, document unchanged".to_string(), note: String::new() }
+}
+
+// C18, names: a document with `name` as element name / attribute name / PI target / name of a declared and referenced entity is
+// accepted by the parser (nothing left over) exactly when the name matches QName (elements, attributes) or Name (PI targets other
+// than [Xx][Mm][Ll], entity names: XML 1.0 productions [17], [68], [71]; colons are allowed there).  Expected from the character
+// tables of spec/xml_chars.json.  Candidates: every boundary code point of the NameStartChar / NameChar ranges (and its neighbours)
+// alone, after a letter and before a letter; names that begin like reserved ones (xmlnsx, xmlns2:x, xmlfoo); colon shapes.
+pub fn name_candidates() -> Vec<String> {
+    const START: [(u32, u32); 16] = [(58, 58), (65, 90), (95, 95), (97, 122), (192, 214), (216, 246), (248, 767), (880, 893), (895, 8191), (8204, 8205), (8304, 8591), (11264, 12271),
+        (12289, 55295), (63744, 64975), (65008, 65533), (65536, 983039)];
+    const EXTRA: [(u32, u32); 6] = [(45, 45), (46, 46), (48, 57), (183, 183), (768, 879), (8255, 8256)];
+    let mut out: Vec<String> = vec![];
+    for (a, b) in START.iter().chain(EXTRA.iter()) {
+        for cp in [a.saturating_sub(1), *a, *b, b + 1] {
+            if let Some(c) = char::from_u32(cp) {
+                if c == '<' || c == '>' || c == '&' || c == '"' || c == '\'' || c == '=' || c == '/' || c == '?' || c == ';' || c.is_whitespace() || c == ':' {
+                    continue; // (delimiters end the name instead of entering it; colons: the shapes below)
+                }
+                out.push(c.to_string());
+                out.push(format!("a{}", c));
+                out.push(format!("{}a", c));
+            }
+        }
+    }
+    for s in ["a", "xmlnsx", "xmlns2", "xmlns2:x", "xmlns-a", "xmlns.a", "xmlfoo", "xml2:a", "a:b", "a:b:c", ":a", "a:", ":", "a::b", "a:1", "1:a", "a:-b", "a-:b", "_", "_:_", "a.b-c_d", "\u{e9}:\u{e9}"] {
+        out.push(s.to_string());
+    }
+    out.sort();
+    out.dedup();
+    out
+}
+
+pub fn names_accepted(position: &str, name: &str) -> Outcome {
+    use crate::gen_chars::{p4_name_start_char, p4a_name_char};
+    let is_ncname = |s: &str| {
+        let mut it = s.chars();
+        match it.next() {
+            Some(c) if c != ':' && p4_name_start_char(c as u32) => it.all(|c| c != ':' && p4a_name_char(c as u32)),
+            _ => false,
+        }
+    };
+    let is_name = |s: &str| {
+        let mut it = s.chars();
+        match it.next() {
+            Some(c) if p4_name_start_char(c as u32) => it.all(|c| p4a_name_char(c as u32)),
+            _ => false,
+        }
+    };
+    let is_qname = |s: &str| match s.split_once(':') {
+        Some((p, l)) => is_ncname(p) && is_ncname(l),
+        None => is_ncname(s),
+    };
+    let (doc, want) = match position {
+        "element" => (format!("<{}/>", name), is_qname(name)),
+        // (a namespace declaration is an attribute too: xmlns, xmlns:p -- both match QName; xmlns:1 does not)
+        "attribute" => (format!("<r {}=\"v\"/>", name), is_qname(name)),
+        "pi" => (format!("<r><?{} d?></r>", name), is_name(name) && !name.eq_ignore_ascii_case("xml")),
+        "entity" => (format!("<!DOCTYPE r [<!ENTITY {} \"v\">]><r>&{};</r>", name, name), is_name(name)),
+        _ => (String::new(), false),
+    };
+    let observed = match catch_unwind(AssertUnwindSafe(|| match xml_parser::document(doc.as_str()) {
+        Ok((rest, _)) if rest.is_empty() => "accepted".to_string(),
+        _ => "not accepted".to_string(),
+    })) {
+        Ok(s) => s,
+        Err(_) => "PANIC".to_string(),
+    };
+    Outcome { observed, expected: if want { "accepted" } else { "not accepted" }.to_string(), note: format!("document {:?}", doc) }
 }
 
 // C07, set algebra (no oracle needed: the property states the laws).  For every ordered pair (A, B) of operand paths -- among them
